@@ -53,6 +53,7 @@ var bg struct {
 	busy     bool
 	followUp *bystander
 	bigLeft  int // at most this many five-digit repetitions per run
+	soakCap  int // > 0: no soak longer than this (a world in which every statement is a schedule point)
 }
 
 // bgDisabled: set by an engine whose world cannot host background activity
@@ -71,7 +72,7 @@ func bgInit(seed uint64, c *Ctx) {
 	bg.soak = bg.rng.IntN(100) < 5
 	bg.live, bg.bys = nil, nil
 	bg.lastCfg = map[*cors.Middleware]cors.Config{}
-	bg.events, bg.ticks, bg.busy, bg.bigLeft, bg.followUp = 0, 0, false, 2, nil
+	bg.events, bg.ticks, bg.busy, bg.bigLeft, bg.followUp, bg.soakCap = 0, 0, false, 2, nil, 0
 	bgDisabled = false
 }
 
@@ -324,6 +325,9 @@ func bgSoak(main *cors.Middleware, mc cors.Config, where string) {
 	if bg.bigLeft > 0 && bg.rng.IntN(100) < 6 {
 		bg.bigLeft--
 		n = 66000
+	}
+	if bg.soakCap > 0 && n > bg.soakCap {
+		n = bg.soakCap
 	}
 	suite := probeSuite(*fromConfig(&mc))
 	srv := newServer(main.Wrap)
